@@ -85,3 +85,29 @@ def utext(node):
 def canon_text(src):
     """canonical text of an expression given as source (for tables written by hand)"""
     return " ".join(ast.unparse(_Canon().visit(ast.parse(src, mode="eval").body)).split())
+
+
+_NEG = {ast.NotEq: ast.Eq, ast.NotIn: ast.In, ast.IsNot: ast.Is}
+
+
+def positive(expr):
+    """(expr', flipped): the condition without its outer negation - `not x` -> x, `a != b` -> `a == b`,
+    `a not in b` -> `a in b`, `a is not b` -> `a is b` - and whether the truth value was flipped.  Operand
+    nodes are shared with the original (identity of calls inside is kept)."""
+    flipped = False
+    while True:
+        if isinstance(expr, ast.UnaryOp) and isinstance(expr.op, ast.Not):
+            expr, flipped = expr.operand, not flipped
+            continue
+        if isinstance(expr, ast.Compare) and len(expr.ops) == 1 and type(expr.ops[0]) in _NEG:
+            expr = ast.copy_location(ast.Compare(left=expr.left, ops=[_NEG[type(expr.ops[0])]()],
+                                                 comparators=list(expr.comparators)), expr)
+            flipped = not flipped
+            continue
+        return expr, flipped
+
+
+def gp(src, pol=True):
+    """canonical (atom text, polarity) of a hand-written guard: gp("a != b", True) == ("a == b", False)"""
+    e, fl = positive(ast.parse(src, mode="eval").body)
+    return " ".join(ast.unparse(_Canon().visit(copy.deepcopy(e))).split()), (pol != fl)
